@@ -125,6 +125,7 @@ template <class G> void runAny(size_t n0, const std::vector<std::string> &ops) {
     for (auto &op : ops) {
         std::istringstream is(op); std::string k; long i = 0; is >> k;
         if (k == "Q") { is >> i; Segs o = observe(g); o.insert(o.begin(), Obs{0}); o.push_back(query(g, (unsigned)i)); emit("I", o); continue; }
+        if (!k.empty() && k[0] == '~') { Z r = applyOp(g, op.substr(op.find('~') + 1)); emit("I", Segs{Obs{r}}); continue; }   // silent step: result only
         Z r = applyOp(g, op);
         Segs o = observe(g); o.insert(o.begin(), Obs{r}); o.push_back(Obs{}); emit("I", o);
     }
